@@ -1,4 +1,5 @@
 """F-C06a: gc(..., shallow=False) with a used directory object"""
+import logging; logging.disable(logging.CRITICAL)
 import os, sys, tempfile
 sys.path.insert(0, os.environ.get("PYVC_REPO_SRC", "/repo/src"))
 from dvc_objects.fs.local import LocalFileSystem
